@@ -8,10 +8,10 @@ WT=/tmp/seedconfirm-$$
 git -C /repo worktree add -q --detach $WT HEAD || exit 2
 cp $OUT/$DEMO $WT/$PKG/
 cd $WT
-go test -vet=off -count=1 -run "$RUN" ./$PKG/ > $OUT/confirm_head.txt 2>&1; H=$?
+go test ${SEEDTAGS:-} -vet=off -count=1 -run "$RUN" ./$PKG/ > $OUT/confirm_head.txt 2>&1; H=$?
 git apply $OUT/patch.diff || { echo "patch does not apply"; cd /; git -C /repo worktree remove --force $WT; exit 2; }
 go build ./... > $OUT/confirm_build.txt 2>&1; B=$?
-go test -vet=off -count=1 -run "$RUN" ./$PKG/ > $OUT/confirm_patched.txt 2>&1; P=$?
+go test ${SEEDTAGS:-} -vet=off -count=1 -run "$RUN" ./$PKG/ > $OUT/confirm_patched.txt 2>&1; P=$?
 cd /; git -C /repo worktree remove --force $WT
 echo "head_exit=$H build_exit=$B patched_exit=$P"
 if [ $H -eq 0 ] && [ $B -eq 0 ] && [ $P -ne 0 ]; then echo CONFIRMED; else echo NOT-CONFIRMED; fi
